@@ -12,6 +12,7 @@ mapping keys are interface names and are used as anchors.
 from __future__ import annotations
 
 import ast
+import re
 from typing import Callable, Dict, Iterable, List, Optional, Set, Tuple
 
 from ..cfg import BASE, CFG, EXC, edges_guaranteeing, reaching_defs
@@ -618,6 +619,7 @@ def run(repo: Repo, R: Report) -> None:
     g, loop, proc, launch_names = launch_bracket_rules(repo, R, run_nf)
     emitter_state_rules(repo, R)
     handover_rules(repo, R)
+    lifecycle_file_rules(repo, R)
     freshness_rules(repo, R, run_nf, g, loop, proc, launch_names)
     launch_id_rules(repo, R)
 
@@ -1311,6 +1313,591 @@ def handover_rules(repo: Repo, R: Report) -> None:
                 bad = g.must_pass([g.entry], sinks, lambda n: n.id in store_nodes, blocked_edges=excused)
                 what = (f"`{k}` is left out of the record on a path that does not depend on it being None" + (" - e.g. when it is 0 (the first run of a launch, attempt 0): " if not lenient else ": ") + loss(k))
                 R.check(not bad, r_ho, mod.rel, qual, f"record[{k!r}] stored whenever {k} is given", what, got[0][1].lineno, bad[0][1] if bad else None)
+
+
+# ------------------------------------------------------------------------ D5 one lifecycle file per launch
+
+_OPEN_MODULES = {"io", "codecs", "gzip", "bz2", "lzma", "builtins", "os"}
+_CLOCK_EXACT = {
+    "time.time", "time.time_ns", "time.monotonic", "time.monotonic_ns", "time.perf_counter", "time.perf_counter_ns", "time.process_time",
+    "time.ctime", "time.localtime", "time.gmtime", "time.asctime", "datetime.datetime.now", "datetime.datetime.utcnow", "datetime.datetime.today",
+    "datetime.date.today", "uuid.uuid1", "uuid.uuid4", "os.urandom", "os.times", "next",
+}
+_CLOCK_LAST = {"now", "utcnow", "today", "time_ns", "monotonic", "monotonic_ns", "perf_counter", "perf_counter_ns", "uuid1", "uuid4", "uuid6", "uuid7", "urandom",
+               "token_hex", "token_urlsafe", "token_bytes", "mkstemp", "mkdtemp", "mktemp", "getrandbits", "randint", "randrange", "NamedTemporaryFile", "TemporaryDirectory"}
+_CLOCK_MODULES = {"random", "secrets", "tempfile"}
+_ATTR_MUTATORS = {"clear", "pop", "popitem", "update", "setdefault", "__setitem__", "__delitem__", "remove", "discard", "append", "extend", "insert", "add"}
+
+
+def _open_path_operand(mod, c: ast.Call) -> Optional[ast.AST]:
+    """The path operand of an ``open``-like call: ``open(P, ..)`` / ``io.open(P, ..)`` / ``gzip.open(P, ..)`` / ``P.open(..)``."""
+    f = c.func
+    first = c.args[0] if c.args else (kwarg(c, "file") or kwarg(c, "filename") or kwarg(c, "path"))
+    if isinstance(f, ast.Name):
+        return first if f.id == "open" or mod.imports.get(f.id, "").endswith(".open") else None
+    if isinstance(f, ast.Attribute) and f.attr == "open":
+        if isinstance(f.value, ast.Name) and f.value.id in mod.imports and mod.imports[f.value.id].split(".")[0] in _OPEN_MODULES:
+            return first
+        return f.value
+    return None
+
+
+def _clock_call(mod, c: ast.Call) -> bool:
+    """*c* reads something that differs from one evaluation to the next (clock, random source, uuid, temp name, iterator)."""
+    d = call_name(c) or ""
+    if not d:
+        return False
+    head, _, rest = d.partition(".")
+    canon = mod.imports.get(head, head) + ("." + rest if rest else "")
+    if canon in _CLOCK_EXACT or canon.rsplit(".", 1)[-1] in _CLOCK_LAST or canon.split(".")[0] in _CLOCK_MODULES:
+        return True
+    return canon == "time.strftime" and len(c.args) < 2
+
+
+def _volatile_sources(repo: Repo, mod, cls, node: ast.AST, me: Optional[str], depth: int = 3, _busy: Optional[Set[int]] = None) -> List[ast.AST]:
+    """Sub-expressions / statements of *node* whose value differs between two evaluations in the same launch: clock / random /
+    uuid / temp-name reads, ``next(..)``, a counter step (augmented assignment to an attribute), and a call of a repo function
+    (a method through *me*, or a resolvable function) whose body contains one of these."""
+    busy = _busy if _busy is not None else set()
+    out: List[ast.AST] = []
+    for n in walk_no_nested(node):
+        if isinstance(n, ast.AugAssign) and isinstance(n.target, (ast.Attribute, ast.Subscript)):
+            out.append(n)
+        if not isinstance(n, ast.Call):
+            continue
+        if _clock_call(mod, n):
+            out.append(n)
+            continue
+        callee = None
+        f = n.func
+        if isinstance(f, ast.Attribute) and isinstance(f.value, ast.Name) and me is not None and f.value.id == me and cls is not None:
+            callee = repo.method(mod, cls, f.attr)
+        elif isinstance(f, (ast.Name, ast.Attribute)) and dotted_name(f):
+            try:
+                t = repo.resolve_call(mod, n)
+            except Exception:
+                t = []
+            callee = t[0] if len(t) == 1 else None
+        if callee is None or not isinstance(callee[1], FuncNode) or depth <= 0 or id(callee[1]) in busy:
+            continue
+        cm, cf = callee
+        ccls = _parent(cf) if isinstance(_parent(cf), ast.ClassDef) else None
+        pos = cf.args.posonlyargs + cf.args.args
+        cme = pos[0].arg if ccls is not None and pos and not any(dotted_name(d) == "staticmethod" for d in cf.decorator_list) else None
+        busy.add(id(cf))
+        try:
+            if any(_volatile_sources(repo, cm, ccls, st, cme, depth - 1, busy) for st in cf.body):
+                out.append(n)
+        finally:
+            busy.discard(id(cf))
+    return out
+
+
+def _attr_touches(fn: ast.AST, me: Optional[str]) -> List[Tuple[str, ast.AST, str, List[ast.AST]]]:
+    """(attribute, statement, kind, values) for everything *fn* does to ``<me>.attribute``: ``store`` (rebinding),
+    ``aug``, ``del``, ``mutate`` (a store below it / a mutator method called on it)."""
+    out: List[Tuple[str, ast.AST, str, List[ast.AST]]] = []
+    if me is None:
+        return out
+
+    def root(t: ast.AST) -> Optional[Tuple[str, bool]]:
+        direct = True
+        while isinstance(t, (ast.Subscript, ast.Attribute)):
+            if isinstance(t, ast.Attribute) and isinstance(t.value, ast.Name) and t.value.id == me:
+                return t.attr, direct
+            direct = False
+            t = t.value
+        return None
+
+    for n in walk_no_nested(fn):
+        tg: List[ast.AST] = []
+        kind = "store"
+        vals: List[ast.AST] = []
+        if isinstance(n, (ast.Assign, ast.AugAssign)) or (isinstance(n, ast.AnnAssign) and n.value is not None):
+            tg = _flat_store_targets(n)
+            kind = "aug" if isinstance(n, ast.AugAssign) else "store"
+            vals = [n.value]
+        elif isinstance(n, ast.Delete):
+            kind = "del"
+            todo = list(n.targets)
+            while todo:
+                t = todo.pop()
+                if isinstance(t, (ast.Tuple, ast.List)):
+                    todo.extend(t.elts)
+                else:
+                    tg.append(t)
+        for t in tg:
+            r = root(t)
+            if r is not None:
+                out.append((r[0], n, kind if r[1] else "mutate", vals))
+        if isinstance(n, ast.Call):
+            if isinstance(n.func, ast.Attribute) and n.func.attr in _ATTR_MUTATORS:
+                r = root(n.func.value)
+                if r is not None:
+                    out.append((r[0], stmt_of(n), "mutate", list(n.args) + [k.value for k in n.keywords]))
+            elif call_name(n) == "setattr" and len(n.args) == 3 and isinstance(n.args[0], ast.Name) and n.args[0].id == me and isinstance(n.args[1], ast.Constant):
+                out.append((str(n.args[1].value), stmt_of(n), "store", [n.args[2]]))
+    return out
+
+
+def _record_writes(nf: ast.AST) -> List[ast.Call]:
+    """``X.write(..)`` calls of *nf* whose argument is built from the record (the mapping with a 'record_type')."""
+    rec_names = {t.id for n in walk_no_nested(nf) if isinstance(n, (ast.Assign, ast.AnnAssign)) and n.value is not None
+                 for t in _flat_store_targets(n) if isinstance(t, ast.Name)
+                 and any(isinstance(d, ast.Dict) and any(isinstance(k, ast.Constant) and k.value == "record_type" for k in d.keys) or
+                         (isinstance(d, ast.Call) and call_name(d) == "dict" and any(k.arg == "record_type" for k in d.keywords)) for d in ast.walk(n.value))}
+    out = []
+    for c in calls_in(nf):
+        if isinstance(c.func, ast.Attribute) and c.func.attr in ("write", "writelines") and c.args:
+            if any(_slice_names(nf, a) & rec_names for a in c.args):
+                out.append(c)
+    return out
+
+
+def _bool_atoms(f, out: Optional[list] = None) -> list:
+    out = [] if out is None else out
+    if f[0] == "atom":
+        if f[1] not in out:
+            out.append(f[1])
+    elif f[0] == "not":
+        _bool_atoms(f[1], out)
+    elif f[0] in ("and", "or"):
+        for x in f[1]:
+            _bool_atoms(x, out)
+    return out
+
+
+def _bool_eval(f, env: dict) -> bool:
+    if f[0] == "const":
+        return f[1]
+    if f[0] == "atom":
+        return env[f[1]]
+    if f[0] == "not":
+        return not _bool_eval(f[1], env)
+    if f[0] == "and":
+        return all(_bool_eval(x, env) for x in f[1])
+    return any(_bool_eval(x, env) for x in f[1])
+
+
+def _mode_counterexample(alias_facts: list, dir_conjs: list) -> Optional[dict]:
+    """A truth assignment of the atoms under which every fact guarding the alias holds and some directory-branch condition of
+    the per-run opener holds too (None: the alias guard implies the per-run opener's single-file branch)."""
+    import itertools
+    atoms: list = []
+    for f in alias_facts:
+        _bool_atoms(f, atoms)
+    for conj in dir_conjs:
+        for f in conj:
+            _bool_atoms(f, atoms)
+    if len(atoms) > 12:
+        raise AnalysisError(f"lifecycle mode agreement: {len(atoms)} atoms in the mode tests")
+    for vals in itertools.product((True, False), repeat=len(atoms)):
+        env = dict(zip(atoms, vals))
+        if all(_bool_eval(f, env) for f in alias_facts) and any(all(_bool_eval(f, env) for f in conj) for conj in dir_conjs):
+            return env
+    return None
+
+
+def lifecycle_file_rules(repo: Repo, R: Report) -> None:
+    r_lf = R.rule("C09-D5-lifecycle-file-identity", "in every trace driver that writes to files, the file run_space_end is written to is the file run_space_start of the same launch was written to, whatever happens to the handle in between (execute() flushes and closes the driver after every run): a path that contains a clock reading / random part / counter is computed only when no path is remembered for the launch, is remembered in driver state, and no method that runs between the two records resets that state", 1)
+    r_ma = R.rule("C09-D5-lifecycle-mode-agreement", "wherever the run-space lifecycle handle is made the per-run handle (single-file mode), the tests guarding that statement imply, for the same configured output path, that the per-run opener takes its single-file branch (the configured path itself, no time-stamped name): decided on the truth table over {suffix non-empty, is_dir}; the lifecycle test may be stronger than the per-run test, never weaker", 1)
+    R.assume(
+        "C09-D5-lifecycle-file-identity: library calls other than the clock / random / uuid / temp-name / next() families are deterministic functions of their operands; the driver instance, its configured output path and (launch id, attempt, run_id) are the same for run_space_start and run_space_end of one launch; any public method of the driver other than on_run_space_start / on_run_space_end may run between the two records (flush() and close() do, after every run)",
+        "C09-D5-lifecycle-file-identity: the per-run SER file is exempt - it is opened by pipeline_start and closed at the end of that run, all records of the run are written between that one open and that one close, so its (time-stamped) name is taken once per run; where the lifecycle records are written through the per-run handle only if the configured output path has a suffix (single-file mode), the file is the configured path itself - that the two mode tests agree is decided by C09-D5-lifecycle-mode-agreement; where they do not, or in any other mode, the opens of that handle are held to the rule",
+    )
+    found = 0
+    for mod, cqn, cls in repo.all_classes():
+        if any((dotted_name(b) or "").split(".")[-1] == "Protocol" for b in cls.bases):
+            continue
+        own = {st.name: st for st in cls.body if isinstance(st, FuncNode)}
+        if not all(k in own and _real_body(own[k]) for k in ("on_run_space_start", "on_run_space_end")):
+            continue
+        if not any(_open_path_operand(mod, c) is not None for m in own.values() for c in calls_in(m)):
+            continue  # keeps its records somewhere else than in files it opens
+        found += 1
+        _lifecycle_file_identity(repo, R, r_lf, r_ma, mod, cqn, cls, own)
+    if not found:
+        raise AnalysisError("no file-writing class implementing on_run_space_start / on_run_space_end found")
+
+
+def _lifecycle_file_identity(repo: Repo, R: Report, r_lf: str, r_ma: str, mod, cqn: str, cls: ast.ClassDef, own: Dict[str, ast.AST]) -> None:
+    START, END = "on_run_space_start", "on_run_space_end"
+
+    def self_of(fn: ast.AST) -> Optional[str]:
+        pos = fn.args.posonlyargs + fn.args.args
+        return pos[0].arg if pos and not any(dotted_name(d) in ("staticmethod", "classmethod") for d in fn.decorator_list) else None
+
+    # what the methods that may run between the two records do to the driver's attributes
+    todo = [n for n in own if not n.startswith("_") and n not in (START, END)]
+    between: List[str] = []
+    while todo:
+        n = todo.pop()
+        if n in between:
+            continue
+        between.append(n)
+        me = self_of(own[n])
+        for c in calls_in(own[n]):
+            if me is not None and isinstance(c.func, ast.Attribute) and isinstance(c.func.value, ast.Name) and c.func.value.id == me and c.func.attr in own and c.func.attr not in (START, END, "__init__"):
+                todo.append(c.func.attr)
+    between_touch: Dict[str, Tuple[str, ast.AST]] = {}
+    for n in sorted(between, key=lambda x: (x.startswith("_"), x)):
+        for attr, st, _k, _v in _attr_touches(own[n], self_of(own[n])):
+            between_touch.setdefault(attr, (n, st))
+    touched_after_init = {attr for n, fn in own.items() if n != "__init__" for attr, _s, _k, _v in _attr_touches(fn, self_of(fn))}
+
+    # the handle the per-run records are written through
+    run_handles: Set[str] = set()
+    for n in ("on_pipeline_start", "on_node_event", "on_pipeline_end"):
+        if n in own and _real_body(own[n]):
+            pnf = nfunc(repo, mod.rel, f"{cqn}.{n}")
+            pme = self_of(pnf)
+            for w in _record_writes(pnf):
+                for o in _origins_attr_terminal(pnf, w.func.value):
+                    if isinstance(o, ast.Attribute) and isinstance(o.value, ast.Name) and o.value.id == pme:
+                        run_handles.add(o.attr)
+
+    def analyse(meth: str, mode: Optional[dict] = None):
+        qual = f"{cqn}.{meth}"
+        nf = nfunc(repo, mod.rel, qual)
+        me = self_of(nf)
+        if me is None:
+            raise AnalysisError(f"{qual}: not an instance method")
+        g = CFG(nf)
+        is_attr = lambda x: isinstance(x, ast.Attribute) and isinstance(x.value, ast.Name) and x.value.id == me
+        stores: Dict[str, List[Tuple[ast.AST, str, List[ast.AST]]]] = {}
+        for attr, st, k, v in _attr_touches(nf, me):
+            stores.setdefault(attr, []).append((st, k, v))
+
+        def items(v: ast.AST, at: int) -> Tuple:
+            out = []
+            for x in walk_no_nested(v):
+                if isinstance(x, ast.Name) and isinstance(x.ctx, ast.Load) and x.id != me:
+                    out.append(("local", x.id, at))
+                elif is_attr(x) and isinstance(x.ctx, ast.Load):
+                    out.append(("attr", x.attr, at))
+            return tuple(out)
+
+        def cases(e: ast.AST, at: int) -> List[Tuple[Tuple, Tuple, frozenset]]:
+            """The values *e* may have at CFG node *at*: (expressions it is built from, nodes that computed them, attributes
+            whose value from before this call it reads) - locals through their reaching definitions, attributes through
+            the stores of this call that reach the use."""
+            results: List[Tuple[Tuple, Tuple, frozenset]] = []
+
+            def rec(pending: Tuple, exprs: Tuple, sites: Tuple, incoming: frozenset, done: frozenset) -> None:
+                if len(results) > 400:
+                    raise AnalysisError(f"{qual}: too many ways to build `{norm(e)[:60]}`")
+                while pending and pending[0] in done:
+                    pending = pending[1:]
+                if not pending:
+                    results.append((exprs, sites, incoming))
+                    return
+                (kind, name, use), rest = pending[0], pending[1:]
+                done = done | {pending[0]}
+                if kind == "local":
+                    defs = reaching_defs(g, name, use)
+                    if not defs:
+                        rec(rest, exprs, sites, incoming, done)  # parameter / global / builtin
+                        return
+                    for d in defs:
+                        vals = _value_for(d.ast, name) if d.kind == "stmt" else []
+                        if not vals:
+                            raise AnalysisError(f"{qual}: `{name}` is bound by `{d.text()[:60]}`, a form the path analysis does not follow")
+                        for v in vals:
+                            rec(rest + items(v, d.id), exprs + (v,), sites + (d.id,), incoming, done)
+                    return
+                sts = stores.get(name, [])
+                if not sts:
+                    rec(rest, exprs, sites, incoming | {name}, done)
+                    return
+                store_nodes = {i for st, _k, _v in sts for i in g.nodes_for(st)}
+                blocked = store_nodes - {use}
+                for st, k, vs in sts:
+                    for i in g.nodes_for(st):
+                        starts = [t for t, _l in g.succ[i] if t not in blocked]
+                        if use not in starts and use not in g.reach(starts, blocked=blocked):
+                            continue
+                        if k == "store":
+                            vals = _value_for(st, f"{me}.{name}") or vs
+                            for v in vals:
+                                rec(rest + items(v, i), exprs + (v,), sites + (i,), incoming, done)
+                        elif k == "aug":
+                            rec(rest + items(st.value, i), exprs + (st,), sites + (i,), incoming | {name}, done)
+                        elif k == "mutate":
+                            extra: Tuple = ()
+                            for v in vs:
+                                extra += items(v, i)
+                            rec(rest + extra, exprs + tuple(vs), sites + (i,), incoming | {name}, done)
+                if use in g.reach([g.entry], blocked=blocked) or use == g.entry:
+                    rec(rest, exprs, sites, incoming | {name}, done)
+
+            rec(items(e, at), (e,), (at,), frozenset(), frozenset())
+            return results
+
+        def mode_facts(nodes: Iterable[int], path_attrs: Set[str]) -> Dict[int, Tuple[tuple, str]]:
+            """if-node -> (formula, text) for every branch test over the configured path (atoms: suffix non-empty, is_dir) one of whose
+            edges dominates all of *nodes*; the formula is the fact known on that edge."""
+            nodes = list(nodes)
+
+            def path_attr(x: ast.AST, at: int) -> Optional[str]:
+                """the configured-path attribute *x* is a plain alias of (an attribute only __init__ stores)"""
+                try:
+                    cs = cases(x, at)
+                except AnalysisError:
+                    return None
+                incs = set().union(*[inc for _e, _s, inc in cs]) if cs else set()
+                if len(incs) == 1 and incs <= path_attrs and all(inc == incs and all(isinstance(y, ast.Name) or is_attr(y) for y in ex) for ex, _s, inc in cs):
+                    return next(iter(incs))
+                return None
+
+            def reads_path(x: ast.AST, at: int) -> bool:
+                try:
+                    return any(inc & path_attrs for _e, _s, inc in cases(x, at))
+                except AnalysisError:
+                    return False
+
+            def formula(e: ast.AST, at: int) -> tuple:
+                if isinstance(e, ast.BoolOp):
+                    return ("and" if isinstance(e.op, ast.And) else "or", [formula(v, at) for v in e.values])
+                if isinstance(e, ast.UnaryOp) and isinstance(e.op, ast.Not):
+                    return ("not", formula(e.operand, at))
+                if isinstance(e, ast.Constant) and isinstance(e.value, bool):
+                    return ("const", e.value)
+                if isinstance(e, ast.IfExp):
+                    t = formula(e.test, at)
+                    return ("or", [("and", [t, formula(e.body, at)]), ("and", [("not", t), formula(e.orelse, at)])])
+                if isinstance(e, ast.Call) and call_name(e) == "bool" and len(e.args) == 1 and not e.keywords:
+                    return formula(e.args[0], at)
+                if isinstance(e, ast.Name) and e.id != me:
+                    defs = reaching_defs(g, e.id, at)
+                    if len(defs) == 1 and defs[0].kind == "stmt":
+                        vals = _value_for(defs[0].ast, e.id)
+                        if len(vals) == 1:
+                            return formula(vals[0], defs[0].id)
+                if isinstance(e, ast.Attribute) and e.attr == "suffix":
+                    a = path_attr(e.value, at)
+                    if a is not None:
+                        return ("atom", (a, "suffix non-empty"))
+                if isinstance(e, ast.Compare) and len(e.ops) == 1 and isinstance(e.ops[0], (ast.Eq, ast.NotEq)):
+                    for x, y in ((e.left, e.comparators[0]), (e.comparators[0], e.left)):
+                        if isinstance(x, ast.Attribute) and x.attr == "suffix" and isinstance(y, ast.Constant) and y.value == "":
+                            a = path_attr(x.value, at)
+                            if a is not None:
+                                atom = ("atom", (a, "suffix non-empty"))
+                                return ("not", atom) if isinstance(e.ops[0], ast.Eq) else atom
+                if isinstance(e, ast.Call) and isinstance(e.func, ast.Attribute) and e.func.attr == "is_dir" and not e.args and not e.keywords:
+                    a = path_attr(e.func.value, at)
+                    if a is not None:
+                        return ("atom", (a, "is_dir"))
+                if isinstance(e, ast.Call) and (call_name(e) or "").endswith("path.isdir") and len(e.args) == 1:
+                    a = path_attr(e.args[0], at)
+                    if a is not None:
+                        return ("atom", (a, "is_dir"))
+                if reads_path(e, at):
+                    raise AnalysisError(f"{qual}: `{norm(e)[:60]}` tests the configured output path in a way the mode analysis does not know (known: .suffix truthiness, .suffix ==/!= '', .is_dir())")
+                return ("atom", ("other", id(e)))
+
+            out: Dict[int, Tuple[tuple, str]] = {}
+            for n in g.nodes:
+                if n.kind != "if" or n.part is None or not nodes:
+                    continue
+                labs = [lab for lab in ("T", "F") if all(g.dominated_by_edge(i, n.id, lab) for i in nodes)]
+                if len(labs) != 1:
+                    continue
+                f = formula(n.part, n.id)
+                if not any(isinstance(k, tuple) and k[0] in path_attrs for k in _bool_atoms(f)):
+                    continue
+                txt = re.sub(r"_i\d+_", "", norm(n.part))
+                out[n.id] = (f, f"`{txt}` (line {n.part.lineno})") if labs[0] == "T" else (("not", f), f"not `{txt}` (line {n.part.lineno})")
+            return out
+
+        writes = _record_writes(nf)
+        if not writes:
+            raise AnalysisError(f"{qual}: no `.write(..)` of the record found")
+        handles: Set[str] = set()
+        opens: List[Tuple[ast.AST, ast.Call, Optional[str]]] = []  # (path operand, open call, handle attribute)
+        for w in writes:
+            for o in _origins_attr_terminal(nf, w.func.value):
+                if is_attr(o):
+                    handles.add(o.attr)
+                    continue
+                if isinstance(o, ast.Name):  # `with open(..) as f`
+                    ctx = [it.context_expr for n in walk_no_nested(nf) if isinstance(n, ast.With) for it in n.items if isinstance(it.optional_vars, ast.Name) and it.optional_vars.id == o.id]
+                    if len(ctx) == 1:
+                        o = ctx[0]
+                p = _open_path_operand(mod, o) if isinstance(o, ast.Call) else None
+                if p is None:
+                    raise AnalysisError(f"{qual}: the object the record is written to (`{norm(o)[:60]}`) is neither an attribute of the driver nor an open(..) call")
+                opens.append((p, o, None))
+        exempt: List[Tuple[str, ast.AST]] = []
+        agree: List[Tuple[str, ast.AST, List[str], Optional[dict]]] = []
+        seen_h: Set[Tuple[str, int]] = set()
+        hq: List[Tuple[str, Optional[ast.AST]]] = [(h, None) for h in sorted(handles)]
+        while hq:
+            h, via = hq.pop()
+            if (h, id(via)) in seen_h:
+                continue
+            seen_h.add((h, id(via)))
+            for st, k, _vs in stores.get(h, []):
+                if k != "store":
+                    continue
+                if via is not None:  # only what is opened on the way to the statement that hands the handle on
+                    ahead = g.reach([i for i in g.nodes_for(st)])
+                    if not any(i in ahead for i in g.nodes_for(via)):
+                        continue
+                for v in _value_for(st, f"{me}.{h}"):
+                    for o in _origins_attr_terminal(nf, v):
+                        if _is_none(o):
+                            continue
+                        if is_attr(o):
+                            if o.attr == h:
+                                continue
+                            # written through another handle of the driver: single-file mode when the tests that guard this
+                            # statement imply the single-file branch of the opener of that handle
+                            if mode is not None and o.attr in mode["handles"]:
+                                facts = mode_facts(g.nodes_for(st), mode["attrs"])
+                                if facts:
+                                    cex = _mode_counterexample([f for f, _t in facts.values()], mode["dir"])
+                                    agree.append((o.attr, st, [t for _f, t in facts.values()], cex))
+                                    if cex is None:
+                                        exempt.append((o.attr, st))
+                                        continue
+                            hq.append((o.attr, st))
+                            continue
+                        p = _open_path_operand(mod, o) if isinstance(o, ast.Call) else None
+                        if p is None:
+                            raise AnalysisError(f"{qual}: `{norm(st)[:80]}` binds the handle the run-space records are written through to something that is not an open(..) call")
+                        opens.append((p, o, h))
+        return {"qual": qual, "nf": nf, "g": g, "me": me, "stores": stores, "cases": cases, "opens": opens, "exempt": exempt, "handles": handles, "agree": agree, "mode_facts": mode_facts}
+
+    # the per-run opener: which attribute holds the configured path, and under which mode facts the name it opens is taken anew
+    mode: Optional[dict] = None
+    if "on_pipeline_start" in own and _real_body(own["on_pipeline_start"]) and run_handles:
+        a_run = analyse("on_pipeline_start")
+        rg = a_run["g"]
+        vol_cases: List[List[int]] = []
+        path_attrs: Set[str] = set()
+        for p, oc, h in a_run["opens"]:
+            for at in rg.nodes_for(stmt_of(oc)):
+                for exprs, _sites, incoming in a_run["cases"](p, at):
+                    path_attrs |= {a for a in incoming if a not in touched_after_init}
+                    vol = [v for x in exprs for v in _volatile_sources(repo, mod, cls, x, a_run["me"])]
+                    if vol:
+                        vol_cases.append(sorted({i for v in vol for i in rg.nodes_for(stmt_of(v))} or {at}))
+        dirs, dir_texts = [], []
+        for vn in vol_cases:
+            facts: Dict[int, Tuple[tuple, str]] = {}
+            for i in vn:
+                facts.update(a_run["mode_facts"]([i], path_attrs))
+            dirs.append([f for f, _t in facts.values()])
+            dir_texts.append(" and ".join(t for _f, t in facts.values()) or "always")
+        mode = {"handles": run_handles & {h for _p, _o, h in a_run["opens"] if h is not None}, "attrs": path_attrs, "dir": dirs, "dir_text": sorted(set(dir_texts))}
+    a_start, a_end = analyse(START, mode), analyse(END, mode)
+    for a in (a_start, a_end):
+        for h, st, texts, cex in a["agree"]:
+            where = ", ".join(f"{k[1]}={'yes' if v else 'no'}" for k, v in (cex or {}).items() if k[0] != "other")
+            R.check(cex is None, r_ma, mod.rel, a["qual"], norm(st)[:100],
+                    f"the lifecycle records are written through the per-run handle self.{h} when {' and '.join(texts)}, but the per-run opener (reached from on_pipeline_start) takes its directory branch - a time-stamped name, taken anew after every close() - when {' / '.join(mode['dir_text'])}: the two mode tests disagree for a configured path with {where}; there run_space_start and run_space_end of one launch land in two files",
+                    st.lineno, what_ok="the guard of the alias implies the single-file branch of the per-run opener")
+    for a in (a_start, a_end):
+        for h, st in a["exempt"]:
+            R.ok(r_lf, mod.rel, a["qual"], norm(st)[:100], f"lifecycle records go through the per-run handle self.{h} only where the per-run opener takes its single-file branch (the file is the configured path)", st.lineno)
+    # run_space_start: the shapes must be understood; what it leaves in the driver is what run_space_end may rely on
+    for p, oc, h in a_start["opens"]:
+        for at in a_start["g"].nodes_for(stmt_of(oc)):
+            a_start["cases"](p, at)
+    start_sets = set(a_start["stores"])
+
+    nf, g, me, stores, cases = a_end["nf"], a_end["g"], a_end["me"], a_end["stores"], a_end["cases"]
+    qual = a_end["qual"]
+    if not a_end["opens"]:
+        if not a_end["exempt"]:
+            R.ok(r_lf, mod.rel, qual, "<no open(..) in on_run_space_end>", "run_space_end is written through a handle this method never (re-)opens", nf.lineno)
+        return
+    stable = {a for a in stores if a not in between_touch}
+
+    def guard_edges(attrs: Set[str]) -> Set[Tuple[int, str]]:
+        """Branch edges on which nothing usable is remembered in *attrs* (`memo is None`, `memo[0] != launch`, `launch not in memo`, `not memo`)."""
+        out: Set[Tuple[int, str]] = set()
+        for n in g.nodes:
+            if n.kind not in ("if", "while") or n.part is None:
+                continue
+
+            def reads(x: ast.AST, n=n) -> bool:
+                try:
+                    return bool(set().union(*[c[2] for c in cases(x, n.id)]) & attrs)
+                except AnalysisError:
+                    return False
+
+            def atom(e: ast.AST) -> Optional[bool]:
+                if isinstance(e, ast.Compare) and len(e.ops) == 1:
+                    l, r, op = e.left, e.comparators[0], e.ops[0]
+                    rl, rr = reads(l), reads(r)
+                    if rl == rr:
+                        return None
+                    other = r if rl else l
+                    if isinstance(op, (ast.In, ast.NotIn)):
+                        return None if rl else isinstance(op, ast.NotIn)
+                    if isinstance(op, (ast.Is, ast.Eq)):
+                        return _is_none(other)
+                    if isinstance(op, (ast.IsNot, ast.NotEq)):
+                        return not _is_none(other)
+                    return None
+                if isinstance(e, (ast.Name, ast.Attribute, ast.Subscript)) and reads(e):
+                    return False
+                if isinstance(e, ast.Call) and (call_attr(e) == "get" or call_name(e) == "bool") and reads(e):
+                    return False
+                return None
+            for lab in edges_guaranteeing(n.part, atom):
+                out.add((n.id, lab))
+        return out
+
+    for p, oc, h in a_end["opens"]:
+        st = stmt_of(oc)
+        problems: List[Tuple[str, int]] = []
+        for at in g.nodes_for(st):
+            for exprs, sites, incoming in cases(p, at):
+                vol = [v for x in exprs for v in _volatile_sources(repo, mod, cls, x, me)]
+                for a in sorted(incoming):
+                    if a in touched_after_init and a in between_touch:
+                        bm, bs = between_touch[a]
+                        problems.append((f"the path that on_run_space_end opens is read from self.{a}, which {bm}() changes (`{norm(bs)[:60]}`, line {bs.lineno}) between run_space_start and run_space_end: after the close() that follows every run the two records of one launch land in different files", bs.lineno))
+                    elif a in touched_after_init and a not in start_sets:
+                        problems.append((f"the path that on_run_space_end opens is read from self.{a}, which on_run_space_start never sets: run_space_end is not written to the file that holds run_space_start", getattr(p, "lineno", st.lineno)))
+                if not vol:
+                    continue
+                src = norm(vol[0])[:60]
+                vol_ids = {id(v) for v in vol}
+                vol_nodes = {i for v in vol for i in g.nodes_for(stmt_of(v))} or {at}
+
+                def kept_in(attrs: Set[str]) -> Set[str]:
+                    out = set()
+                    for a2 in attrs:
+                        if a2 == h:
+                            out.add(a2)  # the open file itself
+                            continue
+                        for st2, _k2, vs2 in stores.get(a2, []):
+                            if any(id(x) in vol_ids for v2 in vs2 for sl in _slice_exprs(nf, v2) for x in ast.walk(sl)):
+                                out.add(a2)
+                    return out
+
+                def guarded(attrs: Set[str]) -> bool:
+                    if not attrs:
+                        return False
+                    seen = g.reach([g.entry], blocked_edges=guard_edges(attrs))
+                    return not any(i in seen for i in vol_nodes)
+
+                if kept_in(stable) and guarded(stable):
+                    continue
+                every = set(stores)
+                if kept_in(every) and guarded(every):
+                    lost = sorted(a2 for a2 in kept_in(every) if a2 != h and a2 in between_touch)  # a remembered path that gets reset, else the open handle
+                    a2 = lost[0] if lost else h if h is not None and h in between_touch else sorted(kept_in(every))[0]
+                    bm, bs = between_touch.get(a2, ("?", st))
+                    problems.append((f"the name of the run-space lifecycle file contains `{src}` and is kept only in self.{a2}, which {bm}() resets (`{norm(bs)[:60]}`, line {bs.lineno}); execute() closes the driver after every run, so on_run_space_end re-opens the file under a new name: run_space_start and run_space_end of one launch land in two files", getattr(vol[0], "lineno", st.lineno)))
+                else:
+                    problems.append((f"the name of the run-space lifecycle file contains `{src}`, taken anew on every open of the handle (not only when no path is remembered for the launch): after the close() that follows every run, on_run_space_end opens another file than the one that holds run_space_start", getattr(vol[0], "lineno", st.lineno)))
+        R.check(not problems, r_lf, mod.rel, qual, norm(st)[:100], problems[0][0] if problems else "", problems[0][1] if problems else st.lineno,
+                what_ok="a re-open after close() reaches the path remembered for the launch")
 
 
 # --------------------------------------------------------------------------------- D3 freshness and linkage
